@@ -90,11 +90,11 @@ def run(ctx, rep, tier):
     B.validate_parse(validation_corpus(ctx, seed=rep.seed, n_random=0)[:60], "rel")
     samples = []
     n_fam = 0
-    t0 = time.time()
-    budget = 330 if tier == "quick" else 6000
+    t0 = time.process_time()
+    budget = (900 if tier == "quick" else 9000) * float(os.environ.get("VERIF_BUDGET_SCALE", "1"))
     fams = list(families(tier, ("octal", "digits", "words"))) + list(families(tier, ("any", "kwarg")))
     for name, spec, assume in fams:
-        if time.time() - t0 > budget:
+        if time.process_time() - t0 > budget:
             rep.coverage["truncated_at_family"] = name
             break
         profiles = ("dev", "rel")
